@@ -30,8 +30,8 @@ CLS = {'gaussian': 'GaussianUnivariate', 'uniform': 'UniformUnivariate', 'truncn
 def cases(seed, tier):
     rng = rng_for(seed, 'C04')
     out = []
-    n_every = 40 if tier == 'quick' else 400
-    n_mle = 200 if tier == 'quick' else 800
+    n_every = 40 if tier == 'quick' else 3000
+    n_mle = 200 if tier == 'quick' else 5000
     for fam in EVERY:
         for i in range(n_every):
             out.append({'mode': 'recovery', 'family': fam, 'n': int(rng.choice([200, 500, 1000, 5000])),
@@ -44,12 +44,12 @@ def cases(seed, tier):
         for i in range(n_mle):
             out.append({'mode': 'recovery', 'family': fam, 'n': int(rng.choice([200, 500, 1000, 5000], p=[.4, .3, .2, .1])),
                         'seed': int(rng.integers(1 << 31))})
-    for i in range(24 if tier == 'quick' else 300):
+    for i in range(24 if tier == 'quick' else 3000):
         out.append({'mode': 'kde', 'seed': int(rng.integers(1 << 31)),
                     'bw': [None, 'scott', 'silverman', 0.05, 0.3, 1.0][i % 6],
                     'weighted': bool(i % 3 == 1), 'sample_size': [None, None, 10, 200][i % 4] if i % 3 != 1 else None,
                     'n': int(rng.choice([5, 50, 300, 2000]))})
-    for i in range(48 if tier == 'quick' else 240):
+    for i in range(48 if tier == 'quick' else 2400):
         out.append({'mode': 'support', 'family': ['beta', 'uniform', 'truncnorm', 'truncnorm'][i % 4],
                     'seed': int(rng.integers(1 << 31)), 'n': int(rng.choice([200, 1000]))})
     return out
